@@ -589,7 +589,7 @@ fn corpus_cases(o: &Opts) -> (Vec<Case16>, bool) {
 
 pub fn run(o: &Opts) {
     let mut st = Stats::new();
-    let mut sh = Shards::new(&o.out, o.shards, &format!("{} Run.Classify_C16.\nImport ListNotations.\nOpen Scope N_scope.", crate::c17::HEADER));
+    let mut sh = Shards::new(&o.out, if o.thorough { o.shards * 6 } else { o.shards }, &format!("{} Run.Classify_C16.\nImport ListNotations.\nOpen Scope N_scope.", crate::c17::HEADER));
     st.rule = "CSV statements generated from 1-8 chronological rows with a running balance per commodity, written under a random layout (columns shuffled with junk columns; fields by index / label / template; delimiter default , ; tab; 0-2 skipped head lines; four date formats; amount or credit/debit columns; optional category, note, balance, commodity, rate, secondary amount, secondary commodity, charge columns; plain / grouped / currency-prefixed / commodity-suffixed numbers) x asset/liability x both row orders, with 0-4 rewrite rules; through load_from_yaml, select, import::import(Csv), to_double_entry, the printing of ImportCmd and report::process over funding + printed text; non-trivial = import succeeded, some amount is non-zero and at least one optional column is used; distinct by YAML + CSV".into();
     st.assumptions.push("numbers have at most 9 significant digits and scale <= 4; rates come from a pool of products of powers of 2 and 5 so that Decimal division is exact".into());
     st.assumptions.push("the csv crate's tokenisation (after skip.head, with the configured delimiter) and chrono's date parsing are oracles: the model receives the records and the day numbers they produce".into());
@@ -600,7 +600,7 @@ pub fn run(o: &Opts) {
     }
     if !replay {
         let mut r = Rng::new(o.seed, 1601);
-        let n = if o.thorough { 24000 } else { 2000 };
+        let n = if o.thorough { 12000 } else { 2000 };
         for _ in 0..n {
             let c = gen_case(&mut r);
             emit(&mut sh, &mut st, &c, "random");
